@@ -68,6 +68,11 @@ type Resolver struct {
 	// key which has aged out of the RFC 5011 lifecycle can't be
 	// resurrected from the mutable copy on the next refresh.
 	configuredRootKeys []dns.RR
+	// unpersistedTombstones holds revocations AutoTA accepted but has
+	// not yet managed to write to the tombstone file. They are merged
+	// into every later refresh so that stale on-disk state cannot put
+	// the revoked key back into rootKeys during this process lifetime.
+	unpersistedTombstones Tombstones
 
 	qnameMinLevel int
 	netTimeout    time.Duration
